@@ -10,6 +10,8 @@ res="ok"
 git -C $W apply "$S/patch.diff" || { echo "$N: patch does not apply"; res=bad; }
 ( cd $W && go build ./... ) || { echo "$N: does not build"; res=bad; }
 b1=$(/verif/tools/baseline.sh $W | tail -1)
+# one test of the pinned suite (TestCancelRepeatedPooled) is flaky under load: retry once, show what failed
+[ "$b1" = "BASELINE OK" ] || { /verif/tools/baseline.sh $W > /tmp/cs_$N.baseline.log 2>&1; b1="$(tail -1 /tmp/cs_$N.baseline.log) (second run; first failed: $(grep -h -- '--- FAIL' /tmp/cs_$N.baseline.log | head -3 | tr '\n' ' '))"; }
 ( cd $W && "$S/demo/run.sh" $W >/tmp/cs_$N.seeded.log 2>&1 ); seeded=$?
 git -C $W checkout -- . ; git -C $W clean -fdq
 git -C /repo worktree remove --force $W
